@@ -32,7 +32,10 @@ SHAPES = {
 
 # sizes used by this check only (index 100 + k): ellipsoid with radii equal up to 1e-5 relative (not a sphere), cylinder with
 # radius = length / 2 (bounding-sphere early-outs are largest there)
-EXTRA = {"ellipsoid": [(0.5, 0.5 * (1 + 4e-6), 0.5 * (1 - 6e-6))], "cylinder": [(0.5, 1.0)]}
+# exact ties between the size parameters (round 3: a 'radii all equal -> sphere' fast path): ellipsoids with three / two equal radii,
+# capsule / cylinder / cone with radius = height, cube-shaped box is size 4 of the shared alphabet
+EXTRA = {"ellipsoid": [(0.5, 0.5 * (1 + 4e-6), 0.5 * (1 - 6e-6)), (0.5, 0.5, 0.5), (0.5, 0.5, 0.3), (0.3, 0.5, 0.5), (60.0, 60.0, 60.0)],
+         "cylinder": [(0.5, 1.0), (0.5, 0.5)], "capsule": [(0.5, 0.5)], "cone": [(0.5, 0.5)]}
 # mesh variant 'meshlib': the same vertex clouds with the triangles that the library's own make_convex_mesh produces
 MESHLIB = [5, 6, 7]
 
@@ -65,12 +68,12 @@ def enumerate_states(tier, seed):
                 for o in range(len(sc.ROTS), len(sc.ALL_ROTS)):
                     for f in (0, 2):
                         states.append({"t": t, "s": s, "o": o, "f": f, "dense": 1})
-    for t, ss in (("ellipsoid", [100]), ("cylinder", [100]), ("meshlib", MESHLIB)):
+    for t, ss in (("ellipsoid", [100, 101, 102, 103, 104]), ("cylinder", [100, 101]), ("capsule", [100]), ("cone", [100]), ("meshlib", MESHLIB)):
         for s in ss:
             for o in range(len(sc.ROTS)):
                 for f in (0, 3):
                     states.append({"t": t, "s": s, "o": o, "f": f})
-    return states, {"bound_completed": "8 predicates x sizes in domain P x 32 orientations x %s offsets, ~300 constructed points each%s"
+    return states, {"bound_completed": "8 predicates x sizes in domain P (incl. exact ties between size parameters) x 32 orientations x %s offsets, ~300 constructed points each%s"
                                        % ("3 of 4 (seed-selected)" if tier == "quick" else "4",
                                           " + dense family 672 orientations x 2 offsets, ~1400 constructed points each" if tier == "thorough" else ""),
                     "exhaustive": tier == "thorough"}
